@@ -36,9 +36,11 @@ pub const REPLACEMENTS: [&str; 40] = [
 ];
 
 /// explicit forms the generated table only reaches by luck
-const EXTRA: [&str; 10] = [
+const EXTRA: [&str; 20] = [
     "range(0, 3, -BB)", "range(0, 3, BB)", "range(0, nn, !BB)", "range(BB, 3, false)", "edges(GG, GG)", "union(AA, AA, AA)", "nodes(GG, 1)",
     "neigh_edges(\"A\", GG)", "len(AA, 1)", "zip(AA, AA, AA)",
+    // block and scoped functions where a compile-time value is needed
+    "max { 1, 2 }", "min { nn, 3 }", "abs { nn }", "avg { 1, 3 }", "sum(i in AA) { i }", "prod(i in 0..nn) { 2 }", "max(i in AA) { i }", "len(AA) + max { 1, 2 }", "any { BB, true }", "sum(i in AA) { i } / 2",
 ];
 
 /// every builtin (both spellings) applied to 0..=3 arguments drawn from atoms of every kind, plus
@@ -232,7 +234,7 @@ fn missing_member_of_declared_family(e: &TransformError, src: &str) -> bool {
     let Some(wanted) = shape(name) else { return false };
     let Some(define) = src.split("\ndefine").nth(1) else { return false };
     define.lines().any(|line| match line.split(" as ").next() {
-        Some(vars) if line.contains(" as ") && line.contains(" for ") => vars.split(',').any(|v| shape(v) == Some(wanted.clone())),
+        Some(vars) if line.contains(" as ") && line.split(" as ").nth(1).is_some_and(|t| t.contains("for")) => vars.split(',').any(|v| shape(v) == Some(wanted.clone())),
         _ => false,
     })
 }
@@ -263,6 +265,16 @@ fn strict_integer_position(e: &TransformError, src: &str) -> Option<String> {
         }
         _ => None,
     }
+}
+
+/// `UndeclaredVariable(x)` for a plain name that the `define` section does declare.
+fn declared_decision_variable(e: &TransformError, src: &str) -> bool {
+    let TransformError::UndeclaredVariable(name) = e.base_error() else { return false };
+    let Some(define) = src.split("\ndefine").nth(1) else { return false };
+    define.lines().any(|line| match line.split(" as ").next() {
+        Some(vars) if line.contains(" as ") => vars.split(',').any(|v| v.trim().trim_start_matches('\\') == name),
+        _ => false,
+    })
 }
 
 fn numeric(k: &PrimitiveKind) -> bool {
@@ -344,6 +356,9 @@ impl Prop for C19 {
             1 => (any::<u16>(), any::<u16>()).prop_map(|(at, with)| Mutation::Insert { at, with }),
             1 => any::<u16>().prop_map(|at| Mutation::Swap { at }),
             1 => any::<u16>().prop_map(|at| Mutation::GrowTuple { at }),
+            // a name of the program in another position: a decision variable where a constant is
+            // needed, a constant where an iteration variable is bound, ...
+            2 => (any::<u16>(), any::<u16>()).prop_map(|(at, with)| Mutation::ReplaceWord { at, with }),
         ];
         (base, proptest::collection::vec(m, 0..=3)).prop_map(|(base, muts)| Case { base, muts }).boxed()
     }
@@ -387,7 +402,21 @@ impl Prop for C19 {
                     };
                     let body = apply(&body, &case.muts, all_replacements());
                     let any_typed = has_any_typed_array(&body) || crate::gen::mutate::split(&body).contains(&crate::gen::mutate::Piece::Word("MM".into()));
-                    let class = if any_typed { ":program-holds-any-typed-array" } else { "" };
+                    // second recorded limitation: a block or scoped function (max { 1, 2 }, sum(..) { .. })
+                    // is typed Number, but the transformer cannot evaluate one where a value is needed
+                    // at compile time; PreExp::as_primitive answers exactly this error for it
+                    let class = if kind == "WrongArgument:got=Undefined:expected=Any" {
+                        ":block-function-where-a-value-is-needed"
+                    } else if declared_decision_variable(&e, &src) {
+                        // third recorded limitation: a decision variable is typed like a number; used
+                        // where a value is needed inside a `define` line the transformer does not know
+                        // it yet and calls it undeclared (elsewhere it says "is a domain variable")
+                        ":decision-variable-where-a-value-is-needed"
+                    } else if any_typed {
+                        ":program-holds-any-typed-array"
+                    } else {
+                        ""
+                    };
                     Outcome::fail(
                         format!("type-class-error-after-accept:{}{class}", kind.split(':').next().unwrap_or("")),
                         format!("{kind}\n{}\nprogram:\n{src}", e.traced_error()),
